@@ -169,6 +169,116 @@ type verifC14Obs struct {
 	untracked   []string
 	nTrackCheck int
 	atRestart   map[string]string // API-side states at the last restart
+
+	// pool events (instrumented worker.go/pool.go, see worker/zz_verif_c14_hook.go)
+	nEvents  map[string]int
+	invFail  string   // first snapshot that violates the visible part of the L3 invariant
+	snaps    []string // a sample of snapshots, re-checked by the Lean model (`snp`)
+	snapSeen int
+}
+
+func verifC14InstNum(id string) int {
+	// "inst12,providertype3" -> 12
+	s := strings.TrimPrefix(id, "inst")
+	if i := strings.IndexAny(s, ",_"); i >= 0 {
+		s = s[:i]
+	}
+	n, _ := strconv.Atoi(s)
+	return n
+}
+
+func verifC14Nums(us []string) string {
+	if len(us) == 0 {
+		return "-"
+	}
+	var r []string
+	for _, u := range us {
+		r = append(r, strconv.Itoa(verifC14Num(u)))
+	}
+	return strings.Join(r, "/")
+}
+
+var verifC14WS = map[string]string{"unknown": "U", "booting": "B", "idle": "I", "running": "R", "shutdown": "S"}
+
+// Called with the pool lock held, at the entry of worker.startContainer / worker.updateRunning /
+// Pool.updateWorker. Checks on the real pool + stub cloud what Model/C14_Proto.lean's `snapOK`
+// states (C14_snapshot_check_sound), plus the guard of Step.schedStart at startContainer.
+func (o *verifC14Obs) onEvent(ev worker.VerifC14Event) {
+	o.mtx.Lock()
+	cur, _ := o.pool.(*worker.Pool)
+	o.mtx.Unlock()
+	if cur == nil || ev.Pool != cur {
+		return // a goroutine of a previous dispatcher process
+	}
+	truth := o.procTable()
+	fail := ""
+	holders := map[string]string{}
+	var ws []string
+	for _, w := range ev.Workers {
+		claimed := map[string]bool{}
+		for _, u := range w.Starting {
+			claimed[u] = true
+		}
+		for _, u := range w.Running {
+			claimed[u] = true
+		}
+		var procs []string
+		for u := range truth[w.Instance] {
+			procs = append(procs, u)
+		}
+		sort.Strings(procs)
+		if w.State == "idle" && len(claimed) > 0 && fail == "" {
+			fail = fmt.Sprintf("%s:idle-worker-%d-tracks-containers", ev.Fn, verifC14InstNum(w.Instance))
+		}
+		for _, u := range procs {
+			if (w.State == "idle" || w.State == "running") && !claimed[u] && fail == "" {
+				fail = fmt.Sprintf("%s:process-%d-on-worker-%d-untracked", ev.Fn, verifC14Num(u), verifC14InstNum(w.Instance))
+			}
+			if h, ok := holders[u]; ok && h != w.Instance && fail == "" {
+				fail = fmt.Sprintf("%s:container-%d-runs-on-%d-and-%d", ev.Fn, verifC14Num(u), verifC14InstNum(h), verifC14InstNum(w.Instance))
+			}
+			holders[u] = w.Instance
+		}
+		ws = append(ws, fmt.Sprintf("%d:%s:%s:%s:%s", verifC14InstNum(w.Instance), verifC14WS[w.State],
+			verifC14Nums(w.Starting), verifC14Nums(w.Running), verifC14Nums(procs)))
+		if ev.Fn == "startContainer" {
+			if w.Instance == ev.Instance && (w.State != "idle" || w.Idle != "run") && fail == "" {
+				fail = fmt.Sprintf("startContainer-on-worker-%d-in-state-%s-%s", verifC14InstNum(w.Instance), w.State, w.Idle)
+			}
+			if claimed[ev.UUID] && fail == "" {
+				fail = fmt.Sprintf("startContainer-%d-already-tracked-on-worker-%d", verifC14Num(ev.UUID), verifC14InstNum(w.Instance))
+			}
+			if (w.State == "idle" || w.State == "running") && truth[w.Instance][ev.UUID] && fail == "" {
+				fail = fmt.Sprintf("startContainer-%d-while-alive-on-worker-%d", verifC14Num(ev.UUID), verifC14InstNum(w.Instance))
+			}
+		}
+	}
+	o.mtx.Lock()
+	defer o.mtx.Unlock()
+	if o.pool != nil && o.pool.(*worker.Pool) != ev.Pool {
+		return
+	}
+	o.nEvents[ev.Fn]++
+	if fail != "" && o.invFail == "" {
+		o.invFail = fail + "@" + strings.Join(ws, ",")
+	}
+	// reservoir of at most 40 snapshots, always including a failing one
+	o.snapSeen++
+	snap := strings.Join(ws, ",")
+	if snap == "" {
+		return
+	}
+	if len(o.snaps) < 40 {
+		o.snaps = append(o.snaps, snap)
+	} else if fail != "" {
+		o.snaps[0] = snap
+	} else if k := rand.Intn(o.snapSeen); k < 40 && k > 0 {
+		o.snaps[k] = snap
+	}
+}
+
+func init() {
+	_ = sort.Strings
 }
 
 // all live processes, per existing VM
@@ -576,7 +686,9 @@ func verifC14Run(p verifC14Params) (out string) {
 		})
 	}
 	obs := &verifC14Obs{cloud: cl, queue: queue, lastCall: map[int]*verifC14Start{}, lastKill: -1,
-		idle: map[string]verifC14Hold{}, listedSince: map[string]bool{}}
+		idle: map[string]verifC14Hold{}, listedSince: map[string]bool{}, nEvents: map[string]int{}}
+	worker.VerifC14SetHandler(obs.onEvent)
+	defer worker.VerifC14SetHandler(nil)
 	sd.Queue = queue
 	sd.Bugf = func(format string, a ...interface{}) {
 		obs.mtx.Lock()
@@ -786,8 +898,17 @@ func verifC14Run(p verifC14Params) (out string) {
 	if len(obs.untracked) > 0 {
 		untracked = strings.Join(obs.untracked, ";")
 	}
-	return fmt.Sprintf("e2e starts=%d calls=%d done=%d/%d restarts=%d vms=%d ms=%d trackchecks=%d untracked=%s bugs=%s obs=%s",
-		len(obs.starts), obs.nStartCalls, ndone, p.n, nrestart, nvm, elapsed.Milliseconds(), obs.nTrackCheck, untracked, bugs, obsStr)
+	invFail := obs.invFail
+	if invFail == "" {
+		invFail = "-"
+	}
+	snaps := "-"
+	if len(obs.snaps) > 0 {
+		snaps = strings.Join(obs.snaps, "|")
+	}
+	return fmt.Sprintf("e2e starts=%d calls=%d done=%d/%d restarts=%d vms=%d ms=%d trackchecks=%d untracked=%s events=%d/%d/%d invfail=%s snaps=%s bugs=%s obs=%s",
+		len(obs.starts), obs.nStartCalls, ndone, p.n, nrestart, nvm, elapsed.Milliseconds(), obs.nTrackCheck, untracked,
+		obs.nEvents["startContainer"], obs.nEvents["updateRunning"], obs.nEvents["updateWorker"], invFail, snaps, bugs, obsStr)
 }
 
 func verifC14Case(line string) string {
